@@ -142,17 +142,27 @@ func rangeCounter(phi *ssa.Phi) (int64, ssa.Value, bool) {
 }
 
 func rangeCounter0(phi *ssa.Phi) (int64, bool) {
-	if phi.Comment != "rangeindex" || len(phi.Edges) != 2 {
+	if phi.Comment != "rangeindex" || len(phi.Edges) < 2 {
 		return 0, false
 	}
+	// one entry edge carrying the start constant; every back edge (there is one per `continue` and
+	// per branch that ends the body) carries the same incremented value
 	var start *ssa.Const
 	var inc *ssa.BinOp
 	for _, e := range phi.Edges {
 		switch x := e.(type) {
 		case *ssa.Const:
+			if start != nil {
+				return 0, false
+			}
 			start = x
 		case *ssa.BinOp:
+			if inc != nil && inc != x {
+				return 0, false
+			}
 			inc = x
+		default:
+			return 0, false
 		}
 	}
 	if start == nil || inc == nil || inc.Op != token.ADD || inc.X != ssa.Value(phi) {
